@@ -11,10 +11,10 @@ import (
 func init() {
 	register(&PropSpec{
 		ID:          "C18",
-		Explanation: "Decides the structural clause 'the snapshot handed to a scan shares no memory that the ingest path mutates in place, and is taken atomically with the file store': (a) isolation — Tree.Copy stores only fresh containers and fresh sequence bytes into the copy, key/label bytes are never written in place, memstore.copy() uses Tree.Copy of its own tree, rowStore.iterate scans exactly the copy taken in the call; (b) lock regions — file store and memstore copy are captured in one read-held region of rowStore.mx, and ingest applies offset+row in one write-held region (all fields of a point become visible together). Further clauses: Tree.Copy returns a fresh tree on every path; a scan reads the retention cutoff once.",
+		Explanation: "Decides the structural clause 'the snapshot handed to a scan shares no memory that the ingest path mutates in place, and is taken atomically with the file store': (a) isolation — Tree.Copy stores only fresh containers and fresh sequence bytes into the copy, key/label bytes are never written in place, memstore.copy() uses Tree.Copy of its own tree, rowStore.iterate scans exactly the copy taken in the call; (b) lock regions — file store and memstore copy are captured in one read-held region of rowStore.mx, and ingest applies offset+row in one write-held region (all fields of a point become visible together). Further clauses: Tree.Copy returns a fresh tree on every path; a scan reads the retention cutoff once; (d) purity — the flush walks the live memstore tree without holding rowStore.mx, which is only safe because no combiner (Sequence.Merge/SubMerge operands, Expr.Merge operands) writes through a sequence it was handed: an in-place merge lets a scan that starts mid-flush see file points already added into the live rows.",
 		NotDecided:  []string{"behaviour under actual interleavings (timing)", "visibility across the flush swap beyond the lock-region clause"},
 		Assumptions: []string{"sync.RWMutex provides mutual exclusion between the write-held and read-held regions"},
-		Rules:       []func(*Ctx){func(c *Ctx) { ruleC18c(c, "C18.c") }, func(c *Ctx) { ruleIsolation(c, "C18.a") }, func(c *Ctx) { ruleLockRegions(c, "C18.b") }},
+		Rules:       []func(*Ctx){func(c *Ctx) { ruleC18c(c, "C18.c") }, func(c *Ctx) { ruleIsolation(c, "C18.a") }, func(c *Ctx) { ruleLockRegions(c, "C18.b") }, func(c *Ctx) { rulePurity(c, "C18.d") }},
 	})
 }
 
